@@ -233,6 +233,18 @@ class BuilderDoesNotTerminate(Exception):
     pass
 
 
+_EMPTY_QUERY = []
+
+
+def empty_query():
+    """a DNSIncoming of a query without questions or known answers (the `inp` of `DNSOutgoing.add_answer`)"""
+    if not _EMPTY_QUERY:
+        from zeroconf import DNSIncoming, DNSOutgoing
+
+        _EMPTY_QUERY.append(DNSIncoming(DNSOutgoing(0).packets()[0]))
+    return _EMPTY_QUERY[0]
+
+
 class GenMsg:
     def __init__(self, flags, id_, multicast, qs, an, au, ad):
         self.flags, self.id, self.multicast = flags, id_, multicast
@@ -255,16 +267,41 @@ class GenMsg:
                     raise BuilderDoesNotTerminate("packets() started datagram %d for %d entries" % (self.n_resets + 1, limit - 4))
                 super()._reset_for_next_packet()
 
+        # `objs` (set by the harness on a message and its "twin" in the other mode): the library's entry objects are made once
+        # and handed to both builders -- as the library itself does with the records of its registry, which go out multicast and
+        # unicast.  Whatever a builder leaves on an entry object must not show in the next message.
+        objs = getattr(self, "objs", None)
+
+        def lib(e):
+            if objs is None:
+                return e.to_lib()
+            if id(e) not in objs:
+                objs[id(e)] = e.to_lib()
+            return objs[id(e)]
+
         out = Guarded(self.flags, self.multicast, self.id)
         for q in self.qs:
-            out.add_question(q.to_lib())
+            out.add_question(lib(q))
         for r in self.an:
-            out.add_answer_at_time(r.to_lib(), float(r.now) if r.now else 0)
+            if getattr(self, "via_add_answer", False) and not r.now:
+                # `add_answer(inp, record)`: the answer is filed unless the query `inp` already knows it; `inp` here is a
+                # query without known answers, so this is add_answer_at_time(record, 0) by another door
+                out.add_answer(empty_query(), lib(r))
+            else:
+                out.add_answer_at_time(lib(r), float(r.now) if r.now else 0)
         for r in self.au:
-            out.add_authorative_answer(r.to_lib())
+            out.add_authorative_answer(lib(r))
         for r in self.ad:
-            out.add_additional_answer(r.to_lib())
+            out.add_additional_answer(lib(r))
         return out
+
+    def twin(self):
+        """the same entries (the same `Ent` objects, hence -- with a shared `objs` -- the same library objects) in a message of
+        the other mode: multicast <-> unicast, another id"""
+        t = GenMsg(self.flags, (self.id + 1) % 65536 or 1, not self.multicast, self.qs, self.an, self.au, self.ad)
+        t.objs = self.objs
+        t.via_add_answer = getattr(self, "via_add_answer", False)
+        return t
 
     def tok(self):
         parts = ["%d %d %s" % (self.flags, self.id, C.b01(self.multicast)), str(len(self.qs))] + [q.tok() for q in self.qs]
@@ -424,12 +461,18 @@ class Gen:
         base = ["foo", "Foo", "FOO", "bar", "My Service", "é日本", "a", "x" * 62, "y" * 63, "é" * 31, "ü" * 31 + "z", "b-1", "7",
                 "\ufffd", "a\ufffdb", "\ufffd" * 21, "\U0001f600x",
                 "\U0001F600", "a\U0001F600b", "\U0001F600" * 15 + "abc", "\U00010000\U0010FFFF",
+                # text that is not in Unicode normal form C (a normalising encoder changes the spelling): e + combining acute,
+                # OHM SIGN / ANGSTROM SIGN (singletons), Hangul jamo, a ligature (NFKC only); white space at the ends of a label
+                "cafe\u0301", "e\u0301", "\u2126hm", "\u212b", "\u1112\u1161\u11ab", "\ufb01n", " a ", "\ta", "a\u00a0",
                 # label lengths between the short vocabulary and the 62/63 boundary, drawn per run
                 "k" * r.randint(11, 61), "K" * r.randint(11, 61), "é" * r.randint(6, 30) + "m", "\U0001F600" * r.randint(3, 15)]
         if malformed:
             base += ["z" * 64, "w" * 65, "v" * 100, "u" * 300, "é" * 32, "", "\U0001F600" * 16]
         self.labels = base
-        self.hosts = ["host.local.", "Host.local.", "other-host.local.", "h" * 63 + ".local.", "日本.local.", "h.\U0001F600home.local."]
+        self.hosts = ["host.local.", "Host.local.", "other-host.local.", "h" * 63 + ".local.", "日本.local.", "h.\U0001F600home.local.",
+                      "h.cafe\u0301.local."]
+        # the stem of the many-label names of this run (they share long suffixes with each other)
+        self.stem = r.choice(["a", "b7", "é"])
         self.d21 = False  # set per message: names of more than 255 wire octets (finding D21) only in a minority of messages
         # text-layer corner cases of write_name (outside the quantifier; byte-exact differential only): the empty string and
         # '.' (both the label list [''], written 00 00), empty labels in the middle / in front, two trailing dots (only one
@@ -495,6 +538,19 @@ class Gen:
             octets += len(l.encode("utf-8")) + 1
         return ".".join(parts + ["local."])
 
+    def many_labels(self):
+        """a name of 24..~120 short labels (<= 253 characters, <= 255 octets): the label-count dimension of the quantifier
+        (`WFName` allows 128, the library's decoder MAX_DNS_LABELS).  Names of one run share their long suffix."""
+        r = self.rng
+        unit = len(self.stem) + 1
+        kmax = (253 - len("local.") - 8) // unit
+        if len(self.stem.encode("utf-8")) > len(self.stem):
+            kmax = (255 - 7 - 10) // (len(self.stem.encode("utf-8")) + 1)
+        k = r.choice([24, 62, 63, 64, 65, 100, kmax, r.randint(24, kmax)])
+        k = min(k, kmax)
+        head = r.choice(["", "x.", "y.z.", "Q."])
+        return head + (self.stem + ".") * k + "local."
+
     def u16(self):
         r = self.rng
         return r.choice([0, 1, 255, 256, 257, 0x1234, 0xFF00, 65535, r.randint(0, 65535)])
@@ -509,7 +565,9 @@ class Gen:
     def record(self, kind=None, txt_len=None):
         r = self.rng
         kind = kind or r.choice("aaapppttsssshn")
-        name = self.name() if r.random() > 0.03 else self.long_name()  # <= 255 wire octets; the D21 names are placed by message()
+        k = r.random()
+        # long_name: <= 255 wire octets (the D21 names are placed by message()); many_labels: up to ~120 labels
+        name = self.name() if k > 0.04 else (self.long_name() if k > 0.012 else self.many_labels())
         unique = r.random() < 0.5
         ttl = self.ttl()
         created = r.choice([1000, 1_000_000, 123456])
@@ -546,7 +604,8 @@ class Gen:
     def question(self):
         r = self.rng
         qt = r.choice([12, 1, 28, 33, 16, 255, 47, 12, 1, 256, 0x010C, 0xFF01, 65535, 0, r.randint(0, 65535)])
-        return Ent("q", self.name() if r.random() > 0.02 else self.long_name(), qt, self.cls(), r.random() < 0.4)
+        k = r.random()
+        return Ent("q", self.name() if k > 0.03 else (self.long_name() if k > 0.01 else self.many_labels()), qt, self.cls(), r.random() < 0.4)
 
     def qsplit_message(self):
         """a query that has to split **inside its question section**: 100-160 questions whose names share no suffix (nothing to
@@ -615,4 +674,6 @@ class Gen:
             pool = qs + an + au + ad
             for e in (r.sample(pool, min(len(pool), r.choice([1, 1, 2]))) if pool else []):
                 e.name = self.long_name(d21=True)
-        return GenMsg(flags, mid, multicast, qs, an, au, ad)
+        gm = GenMsg(flags, mid, multicast, qs, an, au, ad)
+        gm.via_add_answer = r.random() < 0.15
+        return gm
